@@ -26,6 +26,7 @@ var fieldKinds = []struct{ name, typ string }{
 	{"named-interface", "fmt.Stringer"}, {"instantiated-generic", "G[int]"}, {"float64", "float64"},
 	{"[]string", "[]string"}, {"map[string]bool", "map[string]bool"},
 	{"same-package-interface", "Iface"},
+	{"untagged-generic-dependency", "UG[string]"},
 }
 
 var aux = map[string]string{
@@ -35,6 +36,7 @@ var aux = map[string]string{
 	"MyInt": "type MyInt int\n",
 	"MyMap": "type MyMap map[string]string\n",
 	"Iface": "type Iface interface {\n\tM() string\n}\n\ntype impl string\n\nfunc (i impl) M() string { return string(i) }\n",
+	"UG":    "// UG is generic and reached only as a dependency, through an instantiation.\ntype UG[T any] struct {\n\tV T\n\tN int\n}\n",
 	"G":     "// G is generic.\n// +gengo:deepcopy\ntype G[T any] struct {\n\tV T\n\tN int\n}\n",
 }
 
@@ -118,6 +120,8 @@ func (p Prog) source(pkg string) (src, check string) {
 		switch k {
 		case "G":
 			cb.WriteString("\tverifkit.CheckDeepCopy(&checks, &fails, \"G[int]\", new(G[int]))\n")
+		case "UG":
+			cb.WriteString("\tverifkit.CheckDeepCopy(&checks, &fails, \"UG[string]\", new(UG[string]))\n")
 		case "Iface":
 			// an interface type has no DeepCopy of its own
 		case "Deep":
@@ -309,7 +313,7 @@ func run(c *core.Ctx) {
 	if !c.Thorough() {
 		// three fields over the kinds that are same-package types (generated as dependencies, in field order,
 		// possibly reached twice)
-		deps := []int{4, 5, 6, 7, 8, 16}
+		deps := []int{4, 5, 6, 7, 8, 16, 17}
 		for _, a := range deps {
 			for _, b := range deps {
 				for _, d := range deps {
@@ -320,7 +324,7 @@ func run(c *core.Ctx) {
 		c.Bound("three_field_lists_over_same_package_kinds", []string{"tagged-struct", "untagged-dependency-struct", "nested-3-levels", "defined-scalar", "defined-map", "same-package-interface"})
 	}
 	if c.Thorough() {
-		reduced := []int{2, 4, 5, 6, 7, 8, 9, 12, 16}
+		reduced := []int{2, 4, 5, 6, 7, 8, 9, 12, 16, 17}
 		for _, a := range reduced {
 			for _, b := range reduced {
 				for _, d := range reduced {
